@@ -52,7 +52,7 @@ PROPS = {
     "C05": {"units": ["U3", "U4", "U6", "U6b", "U8"], "safety_units": ["U6", "U8"]},
     "C06": {"units": ["U2", "U3", "U4", "U6", "U7", "U8", "U15"]},
     "C07": {"units": ["U9c", "U9d", "U9g", "U9h", "U16g", "U16h", "U10b", "U18"]},
-    "C08": {"units": ["U10", "U10b", "U17"] + U9, "safety_units": ["U17"]},
+    "C08": {"units": ["U10", "U10b", "U17"] + U9 + U16, "safety_units": ["U17"]},
     "C09": {"units": ["U10", "U10b", "U18"] + U9, "safety_units": ["U10", "U10b", "U18"]},
     "C20": {"units": ["U6", "U6b"]},
     "C10": {"units": U9},
